@@ -330,7 +330,9 @@ class PercentFormatString:
                             yield from specifier.accept(pair.value, ctx)
                     else:
                         non_literals.append(pair.key)
-                keys_left = cs_map.keys() - seen_keys
+                # None stands for specifiers without a mapping key; lint()
+                # already reports those.
+                keys_left = cs_map.keys() - seen_keys - {None}
                 if keys_left and not non_literals:
                     yield f"No value specified for keys {', '.join(keys_left)}"
         else:
